@@ -1714,6 +1714,21 @@ bool TypeChecker::isTypeAssignableFromOtherType(
         const Type* otherTy,
         const SyntaxNode* node)
 {
+    ty = unqualifiedAndResolved(ty);
+    otherTy = unqualifiedAndResolved(otherTy);
+
+    // An array on the right-hand side is converted to a pointer to its
+    // element (6.3.2.1-3); an array may be initialized by an array, namely a
+    // string literal (6.7.9-14).
+    if (otherTy->kind() == TypeKind::Array) {
+        auto elemTy = otherTy->asArrayType()->elementType();
+        if (ty->kind() == TypeKind::Pointer)
+            return typesAreCompatible(ty->asPointerType()->referencedType(), elemTy, true, true);
+        if (ty->kind() == TypeKind::Array)
+            return typesAreCompatible(ty->asArrayType()->elementType(), elemTy, false, true);
+        return false;
+    }
+
     return ((isArithmeticType(ty) && isArithmeticType(otherTy))
             || (isStructureOrUnionType(ty)
                 && typesAreCompatible(ty, otherTy, false, false))
